@@ -144,6 +144,11 @@ TYPE_POOL = BENIGN_TYPES + CALLS[:8] + (
     "lambda: open('PWNED', 'w')", "dict(a=open('PWNED','w'))", "Literal[exit()]", "sys.exit", "().__class__.__base__",
     "Optional[__import__('sentinel_mod')]", "open(__import__('os').getcwd() + '/PWNED_ABS', 'w')",
 )
+# (type, default): unpickling the first runs open('PWNED', 'w'), the second os.system('touch PWNED'); eval/exec as `type=`
+SERIALISED = (("pickle.loads", "b\"cbuiltins\\nopen\\n(S'PWNED'\\nS'w'\\ntR.\""),
+              ("pickle.loads", "b\"cos\\nsystem\\n(S'touch PWNED'\\ntR.\""),
+              ("eval", "\"open('PWNED', 'w')\""), ("exec", "\"open('PWNED', 'w')\""),
+              ("marshal.loads", "b'\\xe9\\x01\\x00\\x00\\x00'"))
 BENIGN_DEFAULTS = ("5", "'a'", "True", "None", "0.5")
 DEFAULT_POOL = BENIGN_DEFAULTS + CALLS + ("sys.exit", "().__class__", "cdd",
                                            # arithmetic shapes (BinOp / UnaryOp / compare) around a literal-rooted dunder chain
@@ -245,6 +250,11 @@ def adv_param(draw, name):
     if draw(st.integers(0, 2)) == 2:
         p["doc_default"] = draw(st.sampled_from(DOC_DEFAULT_POOL[1:]))
         p["announce"] = draw(st.integers(0, len(DEFAULT_ANNOUNCE) - 1))
+    if draw(st.integers(0, 11)) == 11:
+        # a deserialiser named as the type and serialised data as the default (`type=pickle.loads, default=b"..."` is
+        # what argparse users - and cdd's own argparse emitter - write): the bytes are data of the analysed source
+        p["typ"], p["default"] = draw(st.sampled_from(SERIALISED))
+        p["typ_in"] = draw(st.sampled_from(("sig", "sig", "doc")))
     return p
 
 
@@ -329,7 +339,10 @@ def cmd_op(draw):
         op["truth"] = draw(st.sampled_from(("class", "function", "argparse_function")))
         op["missing"] = draw(st.sampled_from(("", "", "", "class", "function", "argparse_function")))
     elif kind == "sync_properties":
-        op["input_param"] = draw(st.sampled_from(("src.{p}", "In.{p}", "VALUE")))
+        # the last four name something that is not a plain top-level (annotated) assignment: bound under `if` / `try`,
+        # by tuple unpacking, or not at all - without --input-eval there is no licence to run the module to find it
+        op["input_param"] = draw(st.sampled_from(("src.{p}", "In.{p}", "VALUE", "src.{p}", "In.{p}", "VALUE",
+                                                  "COND_VALUE", "TRY_VALUE", "UNPACKED_A", "NO_SUCH_NAME")))
         op["output_param"] = draw(st.sampled_from(("Out.kind", "dst.arg")))
         op["wrap"] = draw(st.sampled_from((None, None, "Optional[{output_param}]", "Union[{output_param}, exit()]")))
     elif kind == "prepend":
@@ -567,7 +580,9 @@ def render_files(spec):
         "fn.py": _module(spec, render_function(spec)),
         "ap.py": _module(spec, render_argparse(spec)),
         "props_in.py": _module(spec, render_function(spec, name="src"), render_class(spec, name="In"),
-                               ["VALUE: %s = %s" % (p0["typ"], p0["default"] or "None")] if p0 else ["VALUE: int = 5"]),
+                               (["VALUE: %s = %s" % (p0["typ"], p0["default"] or "None")] if p0 else ["VALUE: int = 5"]) +
+                               ["if len(sys.argv) >= 0:", "    COND_VALUE: int = 5", "try:", "    TRY_VALUE: int = 5",
+                                "except Exception:", "    TRY_VALUE = 6", "UNPACKED_A, UNPACKED_B = 1, 2"]),
         "props_out.py": "class Out(object):\n    \"\"\"Out.\"\"\"\n\n    kind: int = 0\n\n\ndef dst(arg: int = 0):\n"
                         "    \"\"\"\n    Dst.\n\n    :param arg: the arg\n    \"\"\"\n    return arg\n",
         # the --input-eval exception: a user file whose evaluation the user asked for (it calls, it imports, and it
